@@ -28,6 +28,19 @@ def ranges_task(task):
 
     def get(text):
         return S.as_pairs(parse_range(text, rank_order=ro))
+    # what a notation denotes depends on the notation and the rank order only -- not on what was parsed before: every "+" form and a
+    # slice of the "-" forms are first parsed under ANOTHER rank order in this very process
+    others = [o for o in RankOrder if o is not ro]
+    for other in others[:2]:
+        oo = ''.join(r.value for r in other)
+        for x, y in itertools.product(order, repeat=2):
+            if x in oo and y in oo:
+                for kind in ('', 's', 'o'):
+                    try:
+                        parse_range(f'{x}{y}{kind}+', rank_order=other)
+                        parse_range(f'{x}{y}{kind}-{y}{x}{kind}', rank_order=other)
+                    except ValueError:
+                        pass
     for x, y in itertools.product(order, repeat=2):
         sets = {}
         for kind in ('', 's', 'o'):
@@ -125,6 +138,52 @@ def icm_task(task):
     for r in out:
         r['native'] = True
     return {'results': out, 'contract': None}
+
+
+def icm_grid_task(task):
+    """label B (bounded stand-in, never counted): the real calculate_icm on a grid of small chip vectors in EVERY order (the symbolic task
+    cannot execute code that compares symbolic chips, e.g. a sort) against an independent exact Malmuth-Harville recursion over Fractions"""
+    import fractions
+    import time
+    from pokerkit.analysis import calculate_icm
+    F = fractions.Fraction
+    t0 = time.time()
+
+    def ref(payouts, chips):
+        n = len(chips)
+        vals = [F(0)] * n
+
+        def go(place, left, prob):
+            if place >= len(payouts) or not left:
+                return
+            tot = sum(chips[i] for i in left)
+            for i in left:
+                p = prob * F(chips[i], tot)
+                vals[i] += p * payouts[place]
+                go(place + 1, [j for j in left if j != i], p)
+        go(0, list(range(n)), F(1))
+        return vals
+    fails, n = [], 0
+    grids = [(1, 2, 3), (2, 5, 3), (5, 5, 1), (20, 50, 30), (1, 1, 1), (3, 1, 2, 4), (4, 4, 2, 9), (7, 1, 7, 2)]
+    payout_sets = [(100,), (50, 30), (50, 30, 20), (10, 10), (1, 0)]
+    for base in grids:
+        for chips in sorted(set(itertools.permutations(base))):
+            for pay in payout_sets:
+                if len(pay) > len(chips):
+                    continue
+                n += 1
+                try:
+                    got = tuple(calculate_icm(pay, chips))
+                except Exception as e:   # noqa
+                    fails.append((pay, chips, repr(e)))
+                    continue
+                want = ref(pay, chips)
+                if len(got) != len(want) or any(abs(float(w) - g) > 1e-9 * max(1.0, abs(float(w))) for w, g in zip(want, got)):
+                    if len(fails) < 5:
+                        fails.append((pay, chips, got, tuple(float(w) for w in want)))
+    return {'results': [], 'contract': None, 'task': 'icm-grid',
+            'standin': {'label': 'B', 'bound': f'{n} (payouts, chips) vectors: permutations of {len(grids)} small stacks x {len(payout_sets)} payout vectors',
+                        'evaluations': n, 'failures': fails, 'seconds': round(time.time() - t0, 2)}}
 
 
 def equities_task(task):
@@ -233,6 +292,7 @@ def main(argv=None):
         for T in (1, 2):
             tasks.append({'module': M, 'fn': 'equities_task', 'm': m, 'T': T, 'H': 2, 'Bc': 3, 'name': f'equities/m{m}T{T}',
                           'timeout_ms': 60000 if thorough else 20000, 'weight': 4 * m})
+    tasks.append({'module': M, 'fn': 'icm_grid_task', 'name': 'icm-grid', 'weight': 2})
     for H, pool, mr in (((1, 5, 40), (2, 5, 24)) if not thorough else ((1, 6, 80), (2, 6, 60))):
         tasks.append({'module': M, 'fn': 'selections_task', 'H': H, 'pool': pool, 'max_ranges': mr, 'name': f'selections/h{H}', 'weight': 20})
     chk.run_tasks(tasks)
@@ -245,7 +305,10 @@ def main(argv=None):
         'range notation: two-card hold\'em ranges over the listed rank orders; the domain is the notation forms named by the statement '
         '(13x13 rank pairs x 6 forms, 13^4 x 3 dash forms, separators)',
     ]
-    return chk.finish(checker_cmd='./check C18 --tier ' + chk.tier,
+    sis = [t['standin'] for t in chk.task_reports if t.get('standin')]
+    chk.assumptions.append('the ICM grid comparison is a bounded stand-in (label B), never counted; it supplies failing inputs where changed code '
+                           'cannot be executed on symbols')
+    return chk.finish(checker_cmd='./check C18 --tier ' + chk.tier, standin=(sis[0] if sis else None),
                       explanation='E: real parse_range on the whole notation domain vs spec/ranges.py; D/shape: real __calculate_equities_0 '
                                   'executed symbolically (pyvc/z3) vs spec/pots.py; real calculate_icm executed on sympy symbols')
 
